@@ -203,6 +203,7 @@ func (c14) ID() string { return "C14" }
 func (c14) Plan(tier string) []fw.Unit {
 	us := planEnum("C14", tier, len(c14Queries()), 8)
 	us = append(us, fw.Unit{Check: "C14", Kind: "when-cap", Tier: tier, Spec: fw.Spec(enumSpec{})})
+	us = append(us, fw.Unit{Check: "C14", Kind: "key-pairs", Tier: tier, Spec: fw.Spec(enumSpec{})})
 	for sh := 0; sh < 8; sh++ {
 		us = append(us, fw.Unit{Check: "C14", Kind: "when-gate", Tier: tier, Spec: fw.Spec(enumSpec{Shard: sh, Shards: 8})})
 	}
@@ -241,6 +242,9 @@ func c14Desc(seq []c14In) []string {
 func (c14) Run(u fw.Unit) fw.Result {
 	if u.Kind == "when-gate" {
 		return c14WhenGate(u)
+	}
+	if u.Kind == "key-pairs" {
+		return c14KeyPairs()
 	}
 	if u.Kind == "when-cap" {
 		return c14WhenCap(u)
@@ -346,6 +350,66 @@ func (c14) Run(u fw.Unit) fw.Result {
 }
 
 func stripID(s string) string { return s }
+
+// c14KeyPairs: pairwise collision search over partition key tuples - two distinct tuples are two partitions
+// whatever characters or types the values have (fed as t1,t2,t1,t2; acc_count must read 1,1,2,2).
+func c14KeyPairs() fw.Result {
+	a := newAcc("C14", "analytic-key-pairs")
+	one := []any{"", "|", "a", "1", "true", "nil|", "string|a", "a|1:a", 1, 2, 1.5, true, false, nil, 16777216.0, 16777217.0, int64(9007199254740993), int64(9007199254740992)}
+	two := []any{"", "|", "a", "a|1:a", "1:a|", 1, nil, true}
+	type cfgT struct {
+		sql    string
+		tuples [][]any
+	}
+	var t1, t2 [][]any
+	for _, x := range one {
+		t1 = append(t1, []any{x})
+	}
+	for _, x := range two {
+		for _, y := range two {
+			t2 = append(t2, []any{x, y})
+		}
+	}
+	for _, c := range []cfgT{{"SELECT acc_count(v) OVER (PARTITION BY a) AS c FROM stream", t1}, {"SELECT acc_count(v) OVER (PARTITION BY a, b) AS c FROM stream", t2}} {
+		for i := 0; i < len(c.tuples); i++ {
+			for j := i + 1; j < len(c.tuples); j++ {
+				var rows []Row
+				for n := 0; n < 4; n++ {
+					t := c.tuples[[]int{i, j}[n%2]]
+					row := Row{"v": 1, "id": n + 1, "a": t[0]}
+					if len(t) > 1 {
+						row["b"] = t[1]
+					}
+					rows = append(rows, row)
+				}
+				res, execErr, st, _ := syncEval(c.sql, rows)
+				a.r.Evaluations++
+				a.r.States++
+				a.r.Transitions += 4
+				a.r.Nontrivial++
+				cs := map[string]any{"sql": c.sql, "rows": rows}
+				if execErr != "" || st != sched.StatusOK {
+					a.fail("C14|key-pairs|exec", execErr+" "+st.String(), cs, nil, nil)
+					continue
+				}
+				var got []string
+				for _, r := range res {
+					if r.Row == nil {
+						got = append(got, "-")
+					} else {
+						got = append(got, js(r.Row["c"]))
+					}
+				}
+				a.outcome(strings.Join(got, ","))
+				if strings.Join(got, ",") != "1,1,2,2" {
+					a.fail(fmt.Sprintf("C14|key-pairs|partitions-merged|cols=%d", len(c.tuples[i])), fmt.Sprintf("%s: partition keys %s and %s fed alternately give acc_count %v, reference [1 1 2 2]", c.sql, js(c.tuples[i]), js(c.tuples[j]), got), cs, "1,1,2,2", got)
+				}
+			}
+		}
+	}
+	a.sample(map[string]any{"one_column_values": fmt.Sprint(one), "two_column_values": fmt.Sprint(two)})
+	return a.result()
+}
 
 // c14WhenGate: WHEN on a separate gate column (sharded).
 func c14WhenGate(u fw.Unit) fw.Result {
@@ -510,7 +574,7 @@ func c14WhenCap(u fw.Unit) fw.Result {
 func (c14) Describe(tier string) fw.Description {
 	return fw.Description{
 		Level: "model_checking",
-		Rule: "6 queries (lag with offsets/defaults + latest; acc_sum/count/avg and acc_max-acc_min; had_changed; v - lag(v) with a non-analytic WHERE; unpartitioned lag/acc/latest; WHERE had_changed(...) with acc_count) x all row sequences of length 1..L over 3 partition keys (strings; and float64 keys differing only beyond float32 precision) x v in {1,2,NULL,missing}, through EmitSync on the real engine against per-partition reference state machines; every 5th sequence also through Emit + sync sink (sync == async), every 3rd also with partition a alone (isolation); WHEN gating checked over all sequences of length <= 5 over 2 keys x 3 values and of length <= 4 over 2 keys x gate 0|1 x v in {1,2,NULL} with a wrapper expression (values at rows passing WHEN must not depend on rows failing it; a row failing WHEN repeats the partition's previous outputs, NULL included); partition cap 2 over all 3-key sequences of length 5 (exact within the cap, totality above); non-trivial = the reference defines at least one output",
+		Rule: "6 queries (lag with offsets/defaults + latest; acc_sum/count/avg and acc_max-acc_min; had_changed; v - lag(v) with a non-analytic WHERE; unpartitioned lag/acc/latest; WHERE had_changed(...) with acc_count) x all row sequences of length 1..L over 3 partition keys (strings; and float64 keys differing only beyond float32 precision) x v in {1,2,NULL,missing}, through EmitSync on the real engine against per-partition reference state machines; every 5th sequence also through Emit + sync sink (sync == async), every 3rd also with partition a alone (isolation); WHEN gating checked over all sequences of length <= 5 over 2 keys x 3 values and of length <= 4 over 2 keys x gate 0|1 x v in {1,2,NULL} with a wrapper expression (values at rows passing WHEN must not depend on rows failing it; a row failing WHEN repeats the partition's previous outputs, NULL included); pairwise collision search over typed partition key tuples (1 and 2 columns: separator-like strings, type-name-like strings, numbers beyond float32/2^53, bools, NULL); partition cap 2 over all 3-key sequences of length 5 (exact within the cap, totality above); non-trivial = the reference defines at least one output",
 		Bounds:      map[string]any{"max_len": map[string]int{"quick": 4, "thorough": 5}, "keys": 3, "values": []string{"1", "2", "NULL", "missing"}},
 		Assumptions: []string{"definitions of lag/latest/had_changed/acc_* taken from the documentation comments of functions/functions_analytical.go and functions/analytic_acc.go (the online analytic docs are not in the repository)", "a first row with NULL under had_changed(true, v) may count as a change or not"},
 	}
